@@ -101,11 +101,13 @@ pub struct Ctx {
     pub in_func: bool,
     /// nesting depth of loop templates (names the counter)
     pub loop_depth: u8,
+    /// nesting depth of immediately applied anonymous functions (names the parameter: p0, p1)
+    pub func_depth: u8,
 }
 
 impl Ctx {
     pub fn top() -> Self {
-        Ctx { in_loop: false, in_func: false, loop_depth: 0 }
+        Ctx { in_loop: false, in_func: false, loop_depth: 0, func_depth: 0 }
     }
 }
 
@@ -138,7 +140,7 @@ pub struct Grammar {
     pub dead_while: bool,
     /// counter loops `stel iN = 0; zolang iN < k { iN = iN + 1; body }` for these k
     pub loop_counts: Vec<i64>,
-    /// immediately applied anonymous function of one parameter `p`: `functie(p) { body }(arg)`
+    /// immediately applied anonymous function of one parameter `p<depth>`: `functie(p0) { body }(arg)`
     pub iife: bool,
     pub block_stmt: bool,
     pub break_continue: bool,
@@ -205,7 +207,7 @@ impl Enumerator {
     }
 
     fn loop_ctx(ctx: Ctx) -> Ctx {
-        Ctx { in_loop: true, in_func: ctx.in_func, loop_depth: ctx.loop_depth + 1 }
+        Ctx { in_loop: true, loop_depth: ctx.loop_depth + 1, ..ctx }
     }
 
     // ------------------------------------------------------------------ counting
@@ -269,9 +271,11 @@ impl Enumerator {
                 c += self.count_blocks(n - 1, Ctx { in_loop: true, ..ctx });
             }
             if g.iife {
-                let inner = Ctx { in_loop: false, in_func: true, loop_depth: 0 };
-                for asz in 1..n {
-                    c += self.count_exprs(asz, ctx) * self.count_blocks(n - 1 - asz, inner);
+                if ctx.func_depth < 2 {
+                    let inner = Ctx { in_loop: false, in_func: true, loop_depth: 0, func_depth: ctx.func_depth + 1 };
+                    for asz in 1..n {
+                        c += self.count_exprs(asz, ctx) * self.count_blocks(n - 1 - asz, inner);
+                    }
                 }
             }
         }
@@ -499,12 +503,13 @@ impl Enumerator {
                 return false;
             }
         }
-        if g.iife {
-            let inner = Ctx { in_loop: false, in_func: true, loop_depth: 0 };
+        if g.iife && ctx.func_depth < 2 {
+            let inner = Ctx { in_loop: false, in_func: true, loop_depth: 0, func_depth: ctx.func_depth + 1 };
+            let pname = format!("p{}", ctx.func_depth);
             for asz in 1..n {
                 let bsz = n - 1 - asz;
                 let ok = self.each_expr(asz, ctx, &mut |a| {
-                    self.each_block(bsz, inner, &mut |b| f(&call(func("", &["p"], b.to_vec()), vec![a.clone()])))
+                    self.each_block(bsz, inner, &mut |b| f(&call(func("", &[pname.as_str()], b.to_vec()), vec![a.clone()])))
                 });
                 if !ok {
                     return false;
